@@ -2,6 +2,8 @@ package web
 
 import (
 	"context"
+	"errors"
+	"fmt"
 	"runtime"
 	"time"
 
@@ -116,6 +118,29 @@ func (st *reqState) onUnwind(v any) {
 		st.mu.Lock()
 		st.propagated = true
 		st.propVal = v
+		st.mu.Unlock()
+	}
+	// "closed when the request ends": the scope middleware has returned (normally or by
+	// panicking) by the time this deferred function of the outer pre-middleware runs
+	st.mu.Lock()
+	scopes := append([]godi.Scope(nil), st.scopes...)
+	st.mu.Unlock()
+	for _, sc := range scopes {
+		if sc == nil {
+			continue
+		}
+		var open []string
+		if _, err := sc.Get(sharedType); err == nil || !errors.Is(err, godi.ErrScopeDisposed) {
+			open = append(open, fmt.Sprintf("Get on the request's scope returned err=%v", err))
+		}
+		for _, i := range st.cs.instancesOf(sc) {
+			if i.closes.Load() == 0 {
+				open = append(open, fmt.Sprintf("scoped instance %d of the request has no Close event yet", i.id))
+			}
+		}
+		st.mu.Lock()
+		st.unwindChecked++
+		st.unwindOpen = append(st.unwindOpen, open...)
 		st.mu.Unlock()
 	}
 	st.signalDone()
